@@ -52,7 +52,7 @@ class C17b(Obligation):
     assumptions = ('K<=4 (thorough 6) code lines of symbolic content; 1<=line<=K; before, after >= 0 unbounded',)
 
     def configs(self, tier):
-        return [dict(K=k) for k in ((1, 2, 3, 4) if tier == 'quick' else (1, 2, 3, 4, 5, 6))]
+        return [dict(K=k) for k in ((1, 2, 3) if tier == 'quick' else (1, 2, 3, 4, 5))]
 
     def scenario(self, ctx, cfg):
         K = cfg['K']
